@@ -380,7 +380,11 @@ def rules(tier):
             # C15-ca: load_save drops the OMEN marker when <session>.omn is not found relative to the working directory
             ('C15.R12', _shared_rule('c08', 'r11_restore_is_verbatim')),
             # C15-cb: memo entry filed under the level reached instead of the level asked for
-            ('C15.R13', _shared_rule('c10', 'r2_memo_key'))]
+            ('C15.R13', _shared_rule('c10', 'r2_memo_key')),
+            # C15-db: is_parent_around with < instead of <=
+            ('C15.R14', _shared_rule('c08', 'r2_region_agreement')),
+            # C15-da: .omn opened for appending
+            ('C15.R15', _shared_rule('plumbing', 'writers_truncate'))]
 
 
 META = {
